@@ -151,6 +151,15 @@ def handle : List String → Option String
           let evs : List Event := pts.map (fun p => { id := [], ms := 0, lat := p.2, lon := p.1, depth := 0, mag := 0 })
           ",".intercalate cells ++ " " ++ ",".intercalate ((cellCounts r.afterDict evs).map toString)
       | _, _, _ => "bad-op")
+  -- c14_frame_dt_rt <cid> <events> : through the datetime-indexed frame; also how many rows carry the label of row 0
+  | ["c14_frame_dt_rt", cid, evs] => some (
+      match parseCatId cid, parseEvents evs with
+      | some cid, some evs =>
+          let df := toDataframeDt (mkCat cid evs)
+          let c : Catalog Unit := fromDataframeL df
+          let dup := match evs with | e :: _ => (atLabel df e.ms).length | [] => 0
+          s!"{showCatId c.catalogId} {showEvents c.events} {dup}"
+      | _, _ => "bad-op")
   | ["c14_write", hdr, emp, app, cid, evs, old] => some (
       match parseCatId cid, parseEvents evs, parseLines old with
       | some cid, some evs, some old => showLines (writeAscii codec (mkCat cid evs) (flag hdr) (flag emp) (flag app) old)
